@@ -114,3 +114,35 @@ def legal_message(rng, direction, small=False):
         if small and t in ("EventLogRsp", "SlaveIdRsp") and len(m.get("events", m.get("id", []))) > 8:
             continue
         return m
+
+
+# ---- input builder (not an oracle): frames for the drivers that need thousands of them cheaply --------------
+# Traces built with these carry the stream bytes, and the TLA+ trace specs re-check every ghost frame
+# against Framing!Build (clause GhostFrames), so a mistake here shows up as a machinery error.
+
+def _crc16(data):
+    crc = 0xFFFF
+    for b in data:
+        crc ^= b
+        for _ in range(8):
+            crc = (crc >> 1) ^ 0xA001 if crc & 1 else crc >> 1
+    return bytes([crc & 0xFF, crc >> 8])
+
+
+def pyframe(kind, tid, pid, uid, pdu):
+    pdu = bytes(pdu)
+    if kind == "tcp":
+        return bytes([tid >> 8, tid & 255, pid >> 8, pid & 255, (len(pdu) + 1) >> 8, (len(pdu) + 1) & 255, uid]) + pdu
+    body = bytes([uid]) + pdu
+    if kind == "rtu":
+        return body + _crc16(body)
+    if kind == "ascii":
+        lrc = (-sum(body)) & 0xFF
+        return b":" + (body + bytes([lrc])).hex().upper().encode() + b"\r\n"
+    if kind == "bin":
+        raw = body + _crc16(body)
+        esc = b"".join(bytes([x, x]) if x in (0x7B, 0x7D) else bytes([x]) for x in raw)
+        return b"{" + esc + b"}"
+    if kind == "tls":
+        return pdu
+    raise ValueError(kind)
